@@ -291,9 +291,14 @@ def convert(a, kind, w):
     if kind in ('bit', 'bool'):
         if ka in ('bit', 'bool'):
             return MV(kind, None, a.v)
-        if ka in VECK or ka == 'int':
+        if ka == 'int':
+            # an integer literal must be representable in the target: 0 and 1 are
+            if a.v in (0, 1):
+                return MV(kind, None, a.v)
+            raise Reject("integer literal not representable in Bit")
+        if ka in VECK:
             if kind == 'bit':
-                raise Reject("vector/int -> Bit")
+                raise Reject("vector -> Bit")
             return None
     if kind in VECK:
         if ka in ('bit', 'bool'):
